@@ -162,6 +162,7 @@ Definition SITE_ADD : N := 1.          (* u64 `+` in a debug build *)
 Definition SITE_TREASURY : N := 2.     (* `.. + cv.total_payout_treasury - cv.total_payout_atr` underflows *)
 Definition SITE_BUNDLE_TS : N := 3.    (* assert!(current_timestamp > previous_block_timestamp) *)
 Definition SITE_GT_IN_TXPOOL : N := 4. (* panic!("golden tickets should be in gt collection") *)
+Definition SITE_SUPPLY : N := 5.       (* panic!("cannot continue with invalid total supply") *)
 
 (* [dbg] = overflow-checks on (debug profile): panic; off: wrap *)
 Definition uadd (dbg : bool) (a b : N) : res N :=
@@ -196,6 +197,37 @@ Definition spent_keys (l : list tx) : list N :=
   flat_map (fun t => if is_type TFee t then [] else t_inputs t) l.
 Definition dup_spend (l : list tx) : bool := has_dup (spent_keys l).
 
+(* ---------------------------------------------------------------- specification predicates
+   (used by the statements of props/C07.v; no proofs here) *)
+
+(* [agreesb cC cV]: every value that Block::validate recomputes ([cV] = cv of the FINISHED
+   block) equals what Block::create wrote into the header from [cC] = cv of the half-built
+   block.  Field by field: see C07_agrees_fields. *)
+Definition agreesb (dbg : bool) (hchain : list N -> N) (cC cV : cvrec) : bool :=
+  let C := c_econ cC in
+  let V := c_econ cV in
+  match uadd dbg (e_total_fees_new C) (e_total_fees_atr C) with
+  | Ok tf => eqb_lN (guarded_fields V) (guarded_fields (set_total_fees C tf))
+  | _ => false
+  end
+  && (e_burnfee V =? e_burnfee C) && (e_difficulty V =? e_difficulty C)
+  && (c_total_rebroadcast_slips cV =? nsum (map t_atr_slips (c_rebroadcasts cC)))
+  && (c_rebroadcast_hash cV =? hchain (map t_id (c_rebroadcasts cC)))
+  && match c_fee_tx cC with
+     | Some f => match c_fee_tx cV with Some f' => t_id f' =? t_id f | None => false end
+     | None => true
+     end.
+
+(* what the pool may hold: no golden ticket (routed to the ticket map), no producer-only type *)
+Definition pool_tx_ok (t : tx) : bool :=
+  negb (is_type TGoldenTicket t) && negb (is_type TFee t) && negb (is_type TATR t).
+Definition pool_types_ok (l : list tx) : bool := forallb pool_tx_ok l.
+
+(* the transactions cv hands to create have the types create assumes *)
+Definition cv_types_ok (c : cvrec) : bool :=
+  forallb (is_type TATR) (c_rebroadcasts c)
+  && match c_fee_tx c with Some f => is_type TFee f | None => true end.
+
 Section Producer.
   Variable chain : Type.
   Variable view : chain -> chainview.
@@ -208,6 +240,9 @@ Section Producer.
   Variable gt_ok : chain -> tx -> bool.
   (* BurnFee::return_routing_work_needed_to_produce_block_in_nolan(burnfee, ts, previous ts, heartbeat) *)
   Variable work_needed : N -> N -> N -> N -> N.
+  (* Blockchain::check_total_supply after the block was wound: utxoset + graveyard + treasury +
+     unpaid + fees of the new tip equals the initial supply (C02's subject; it panics otherwise) *)
+  Variable supply_ok : chain -> list N -> block -> bool.
   Variable hchain : list N -> N.        (* rebroadcast hash chain over the ATR transactions' ids *)
   Variable mroot : list N -> N.         (* merkle root over the transactions' ids *)
 
@@ -326,11 +361,35 @@ Section Producer.
     end.
 
   (* Blockchain::add_block on a child of the tip: the golden-ticket count check of
-     Blockchain::validate, then Block::validate inside wind_chain *)
+     Blockchain::validate, then Block::validate inside wind_chain, then -- the block is wound
+     by now -- check_total_supply, which panics *)
   Definition has_gt (b : block) : bool := 0 <? count_type TGoldenTicket (b_txs b).
   Definition node_accepts (dbg : bool) (n : node) (b : block) : res bool :=
     if negb (gt_count_ok (view (n_chain n)) (has_gt b)) then Ok false
-    else validate dbg n true b.
+    else do v <- validate dbg n true b;
+         if v then (if supply_ok (n_chain n) (n_ledger n) b then Ok true else Panic SITE_SUPPLY)
+         else Ok false.
+
+
+  (* ---------------------------------------------------------------- the listed defect classes
+     (known_findings.txt, property=C07), as a decidable predicate on one production:
+     [gt], [drained] = what bundle_block hands to Block::create, [b] = the block it returns *)
+  Definition Known_C07 (dbg : bool) (n : node) (creator ts : N) (gt : option tx) (drained : list tx)
+             (b : block) : bool :=
+    let v := view (n_chain n) in
+    let tip_hash := match v_tip v with Some p => par_hash p | None => 0 end in
+    let cC := cv (n_chain n) (n_ledger n) (pre_block (v_tip v) tip_hash creator ts gt drained) in
+    let cV := cv (n_chain n) (n_ledger n) b in
+    (* atr-payout-cap-reads-unfilled-treasury: cv of the finished block differs from what
+       create wrote, or a rebroadcast transaction carries an input amount that is not in the ledger *)
+    negb (agreesb dbg hchain cC cV)
+    || negb (forallb (tx_valid (n_chain n) (n_ledger n)) (b_txs b))
+    (* invalid-golden-ticket-never-cleaned *)
+    || match gt with Some g => negb (gt_ok (n_chain n) g) | None => false end
+    (* type-issuance-pool *)
+    || (0 <? count_type TIssuance drained)
+    (* foreign-stake-transaction-pooled *)
+    || (negb (v_stake_req v =? 0) && negb (count_type TBlockStake drained =? 1)).
 
   (* ---------------------------------------------------------------- the pool *)
   Record mpool := mkM {
@@ -496,37 +555,6 @@ Section Producer.
     end.
 End Producer.
 
-(* ---------------------------------------------------------------- specification predicates
-   (used by the statements of props/C07.v; no proofs here) *)
-
-(* [agreesb cC cV]: every value that Block::validate recomputes ([cV] = cv of the FINISHED
-   block) equals what Block::create wrote into the header from [cC] = cv of the half-built
-   block.  Field by field: see C07_agrees_fields. *)
-Definition agreesb (dbg : bool) (hchain : list N -> N) (cC cV : cvrec) : bool :=
-  let C := c_econ cC in
-  let V := c_econ cV in
-  match uadd dbg (e_total_fees_new C) (e_total_fees_atr C) with
-  | Ok tf => eqb_lN (guarded_fields V) (guarded_fields (set_total_fees C tf))
-  | _ => false
-  end
-  && (e_burnfee V =? e_burnfee C) && (e_difficulty V =? e_difficulty C)
-  && (c_total_rebroadcast_slips cV =? nsum (map t_atr_slips (c_rebroadcasts cC)))
-  && (c_rebroadcast_hash cV =? hchain (map t_id (c_rebroadcasts cC)))
-  && match c_fee_tx cC with
-     | Some f => match c_fee_tx cV with Some f' => t_id f' =? t_id f | None => false end
-     | None => true
-     end.
-
-(* what the pool may hold: no golden ticket (routed to the ticket map), no producer-only type *)
-Definition pool_tx_ok (t : tx) : bool :=
-  negb (is_type TGoldenTicket t) && negb (is_type TFee t) && negb (is_type TATR t).
-Definition pool_types_ok (l : list tx) : bool := forallb pool_tx_ok l.
-
-(* the transactions cv hands to create have the types create assumes *)
-Definition cv_types_ok (c : cvrec) : bool :=
-  forallb (is_type TATR) (c_rebroadcasts c)
-  && match c_fee_tx c with Some f => is_type TFee f | None => true end.
-
 (* ---------------------------------------------------------------- harness glue
    One production round with the Section variables instantiated by tables of what the real
    functions returned in that round: [cvC] = the ConsensusValues Block::create computed
@@ -553,17 +581,44 @@ Record rcase := mkRC {
   rc_gt_ok : list (N * bool);
   rc_hchain : list (list N * N);
   rc_mroot : list (list N * N);
+  rc_supply_ok : bool;
   rc_expected : list (list N);
 }.
 
+Definition rc_node : node unit := mkNode unit tt [].
+Definition rc_viewf (c : rcase) : unit -> chainview := fun _ => rc_view c.
+Definition rc_cvf (c : rcase) : unit -> list N -> block -> cvrec :=
+  fun _ _ b => if b_signed b then rc_cvV c else rc_cvC c.
+Definition rc_validf (c : rcase) : unit -> list N -> tx -> bool := fun _ _ t => lookup_b (rc_valid c) (t_id t).
+Definition rc_gtf (c : rcase) : unit -> tx -> bool := fun _ t => lookup_b (rc_gt_ok c) (t_id t).
+
 Definition run_rcase (wn : N -> N -> N -> N -> N) (c : rcase) : list (list N) :=
-  let nd := mkNode unit tt [] in
-  round unit (fun _ => rc_view c)
-        (fun _ _ b => if b_signed b then rc_cvV c else rc_cvC c)
-        (fun _ _ t => lookup_b (rc_valid c) (t_id t))
-        (fun _ t => lookup_b (rc_gt_ok c) (t_id t))
-        wn (lookup_l (rc_hchain c)) (lookup_l (rc_mroot c))
-        true nd nd (rc_creator c) (rc_pool c) (rc_ts c) (rc_stake c) (rc_order c) (rc_block_hash c).
+  round unit (rc_viewf c) (rc_cvf c) (rc_validf c) (rc_gtf c)
+        wn (fun _ _ _ => rc_supply_ok c) (lookup_l (rc_hchain c)) (lookup_l (rc_mroot c))
+        true rc_node rc_node (rc_creator c) (rc_pool c) (rc_ts c) (rc_stake c) (rc_order c) (rc_block_hash c).
+
+(* the pieces of the round, for statements about a recorded case *)
+Definition rc_tip_hash (c : rcase) : N :=
+  match v_tip (rc_view c) with Some p => par_hash p | None => 0 end.
+Definition rc_gt (c : rcase) : option tx := pick_gt (rc_pool c) (rc_tip_hash c).
+Definition rc_drained (c : rcase) : list tx :=
+  match rc_stake c with
+  | Some s =>
+      match add_transaction_if_validates unit (rc_validf c) true rc_node (rc_pool c) s with
+      | Ok m1 => drain_in (rc_order c) (m_txs m1)
+      | _ => []
+      end
+  | None => []
+  end.
+Definition rc_created (c : rcase) : res block :=
+  create unit (rc_viewf c) (rc_cvf c) (lookup_l (rc_hchain c)) (lookup_l (rc_mroot c))
+         true rc_node (rc_creator c) (rc_ts c) (rc_gt c) (rc_drained c).
+Definition rc_known (c : rcase) (b : block) : bool :=
+  Known_C07 unit (rc_viewf c) (rc_cvf c) (rc_validf c) (rc_gtf c) (lookup_l (rc_hchain c))
+            true rc_node (rc_creator c) (rc_ts c) (rc_gt c) (rc_drained c) b.
+Definition rc_accepts (wn : N -> N -> N -> N -> N) (c : rcase) (b : block) : res bool :=
+  node_accepts unit (rc_viewf c) (rc_cvf c) (rc_validf c) (rc_gtf c) wn
+               (fun _ _ _ => rc_supply_ok c) (lookup_l (rc_mroot c)) true rc_node b.
 
 Definition check_rcases (wn : N -> N -> N -> N -> N) (l : list rcase) : bool :=
   forallb (fun c => eqb_llN (run_rcase wn c) (rc_expected c)) l.
